@@ -72,6 +72,87 @@ func (ex *Ex) hardcoded(fr *Frame, st *State, ins ssa.Instruction, callee *ssa.F
 			k(st, res)
 			return true
 		}
+	case "(*strings.Builder).WriteString", "(*strings.Builder).WriteByte", "(*strings.Builder).WriteRune", "(*strings.Builder).String", "(*strings.Builder).Len":
+		// strings.Builder (T7): its content is a function of the builder value; writes append
+		bt := callee.Params[0].Type().(*types.Pointer).Elem()
+		bv := ex.loadFrom(fr, st, args[0], bt, nil).T
+		if bv == nil {
+			break
+		}
+		ex.note("extern model: strings.Builder content is the concatenation of what was written (T7)")
+		content := App("f$sbContent", SString, bv)
+		st.Assume(Eq(App("f$sbContent", SString, w.Zero(bt)), StrLit("")))
+		switch callee.Name() {
+		case "String":
+			k(st, Val{T: content})
+		case "Len":
+			k(st, Val{T: App("str.len", SInt, content)})
+		default:
+			var piece *T
+			if callee.Name() == "WriteString" {
+				piece = targ(1)
+			} else {
+				piece = App("f$charStr", SString, targ(1))
+				st.Assume(Eq(App("str.len", SInt, piece), IntLit(1)))
+			}
+			nb := ex.FreshVar("sb", w.SortOf(bt))
+			st.Assume(Eq(App("f$sbContent", SString, nb), App("str.++", SString, content, piece)))
+			ex.storeTo(fr, st, args[0], Val{T: nb}, bt, nil)
+			res, _ := ex.freshResults(callee.Name(), callee.Signature)
+			k(st, res)
+		}
+		return true
+	case "fmt.Fprintf", "fmt.Fprint":
+		// writes to a *strings.Builder: append the formatted text (other writers: not modelled)
+		call, ok := ins.(*ssa.Call)
+		if !ok {
+			break
+		}
+		mi, ok := call.Call.Args[0].(*ssa.MakeInterface)
+		if !ok || mi.X.Type().String() != "*strings.Builder" {
+			break
+		}
+		bt := mi.X.Type().(*types.Pointer).Elem()
+		pv := ex.val(fr, st, mi.X)
+		bv := ex.loadFrom(fr, st, pv, bt, nil).T
+		if bv == nil {
+			break
+		}
+		var text *T
+		vi := 1
+		if name == "fmt.Fprintf" {
+			vi = 2
+		}
+		av := args[vi]
+		n := -1
+		if av.Back != 0 && av.BackLen.Kind == kInt {
+			fmt.Sscanf(av.BackLen.Op, "%d", &n)
+		}
+		if n < 0 {
+			break
+		}
+		var ts []*T
+		if name == "fmt.Fprintf" {
+			ts = append(ts, targ(1))
+		}
+		for i := 0; i < n; i++ {
+			ts = append(ts, Select(st.cells[av.Back], Add(av.BackOff, IntLit(int64(i)))))
+		}
+		if name == "fmt.Fprintf" {
+			text = App(fmt.Sprintf("f$sprintf%d", n), SString, ts...)
+		} else if n == 1 {
+			text = App("f$fmtV", SString, ts[0])
+		} else {
+			text = App(fmt.Sprintf("f$sprint%d", n), SString, ts...)
+		}
+		ex.note("extern model: fmt.Fprintf/Fprint to a *strings.Builder appends Sprintf/Sprint of the arguments (T7)")
+		st.Assume(Eq(App("f$sbContent", SString, w.Zero(bt)), StrLit("")))
+		nb := ex.FreshVar("sb", w.SortOf(bt))
+		st.Assume(Eq(App("f$sbContent", SString, nb), App("str.++", SString, App("f$sbContent", SString, bv), text)))
+		ex.storeTo(fr, st, pv, Val{T: nb}, bt, nil)
+		res, _ := ex.freshResults("Fprint", callee.Signature)
+		k(st, res)
+		return true
 	case "runtime.Callers":
 		// ghost frame level (DESIGN §2.6): Callers(skip) called at level L records level L-skip+1 first
 		ex.note("extern axiom: runtime.Callers(skip, pc) called at frame level L records the frame at level L-(skip-1) first (logical frames, inlining-aware)")
